@@ -8,6 +8,8 @@ import (
 	"math"
 	"math/rand"
 	"reflect"
+	"sort"
+	"strings"
 	"testing"
 )
 
@@ -80,10 +82,47 @@ func IsProbability(value float64) bool {
 }
 
 func DecodeToStruct(src, target interface{}) {
-	e := mapstructure.Decode(src, target)
+	decoder, e := mapstructure.NewDecoder(&mapstructure.DecoderConfig{
+		Result:     target,
+		DecodeHook: rejectAmbiguousKeys,
+	})
+	if e == nil {
+		e = decoder.Decode(src)
+	}
 	if e != nil {
 		panic(e)
 	}
+}
+
+// mapstructure matches keys of a map with fields of a struct ignoring the letter case and takes the first match
+// in the iteration order of the map, so with two such keys the decoded value would differ from call to call.
+func rejectAmbiguousKeys(_ reflect.Type, to reflect.Type, data interface{}) (interface{}, error) {
+	if to.Kind() != reflect.Struct {
+		return data, nil
+	}
+	dataVal := reflect.Indirect(reflect.ValueOf(data))
+	if !dataVal.IsValid() || dataVal.Kind() != reflect.Map || dataVal.Type().Key().Kind() != reflect.String {
+		return data, nil
+	}
+	keys := make([]string, 0, dataVal.Len())
+	for _, k := range dataVal.MapKeys() {
+		keys = append(keys, k.String())
+	}
+	sort.Strings(keys)
+	for i := 0; i < to.NumField(); i++ {
+		field := to.Field(i).Name
+		matched := ""
+		for _, k := range keys {
+			if !strings.EqualFold(k, field) {
+				continue
+			}
+			if matched != "" {
+				return nil, fmt.Errorf("ambiguous keys '%s' and '%s', both stand for '%s'", matched, k, field)
+			}
+			matched = k
+		}
+	}
+	return data, nil
 }
 
 type ValueRange struct {
